@@ -82,8 +82,8 @@ def chunks(ctx, files, size):
 
 def model_check(ctx):
     w = 4
-    cfgs = ["Updates_mc_quick.cfg"] if ctx.quick() else \
-        ["Updates_mc_quick.cfg", "Updates_mc_thorough_way.cfg", "Updates_mc_thorough_way3.cfg", "Updates_mc_thorough_unann.cfg",
+    cfgs = ["Updates_mc_quick.cfg", "Updates_mc_origin_q.cfg"] if ctx.quick() else \
+        ["Updates_mc_quick.cfg", "Updates_mc_origin_q.cfg", "Updates_mc_origin.cfg", "Updates_mc_thorough_way.cfg", "Updates_mc_thorough_way3.cfg", "Updates_mc_thorough_unann.cfg",
          "Updates_mc_thorough_rel.cfg", "Updates_mc_pinned.cfg"]
     extra = ["-coverage", "1"] if not ctx.quick() else []
     for c in cfgs:
@@ -183,8 +183,11 @@ def run(ctx):
         "'a copy' of an element = struct copy with its own child list and the same update list value (what Go code "
         "does; the pinned ApplyUpdatesUpTo never writes to the list it was given)",
         "mputil.Group is internal to the module and is bound with go:linkname (harness/internal/c15mp); the real code runs",
+        "location symbols: ordinary (distinct, non-zero), the origin (exactly 0,0), only lat 0, only lon 0 - on "
+        "annotated children and on updates (every combination in the smp = -2 plan entries, drawn by TLC elsewhere); "
+        "a node that is not annotated (version 0, location 0/0) is a separate dimension",
         "update indices are 0..n (n = first index beyond the child list); negative indices are outside the property",
-        "updates carry non-zero coordinates; 'fully annotated' = every way node has a version or a location",
+        "'fully annotated' = every way node has a version or a location (all generated annotated nodes have a version)",
         "where a child's applicable updates are stored out of time order (or with equal stamps) the Judge accepts the "
         "last stored and any latest-stamped update's values (the property does not say which wins)",
         "after an index error the Judge only requires: error reported with an offending index, no crash, children not "
